@@ -112,6 +112,9 @@ func ResolveRelativeFinalSource(a, b FinalSource) (FinalSource, error) {
 		if err != nil {
 			return nil, fmt.Errorf("invalid traversal from %s: %w", a.String(), err)
 		}
+		if err := registrySubPathWritable(newSub); err != nil {
+			return nil, fmt.Errorf("invalid traversal from %s: %w", a.String(), err)
+		}
 		return RegistrySource{
 			pkg:     a.Package(),
 			subPath: newSub,
